@@ -354,8 +354,8 @@ inline void dumpWellExtras(Dump& d, const std::string& p, const Opm::Well& w) {
     if (w.hasInjTemperature()) SO_Q(p + "injtemp", w.inj_temperature());
     d.kv(p + "hasinjected", w.hasInjected());
     d.kv(p + "hasproduced", w.hasProduced());
-    d.kv(p + "prodcmode", static_cast<int>(w.production_cmode()));
-    d.kv(p + "injcmode", static_cast<int>(w.injection_cmode()));
+    SO_Q(p + "prodcmode", static_cast<int>(w.production_cmode()));
+    SO_Q(p + "injcmode", static_cast<int>(w.injection_cmode()));
     d.kv(p + "maxseg", w.maxSegmentID());
     d.kv(p + "maxbranch", w.maxBranchID());
     {
@@ -1015,18 +1015,10 @@ inline void dumpEclipseStateExtras(Dump& d, const Opm::EclipseState& es) {
             d.kv(q + "refsal", t.getRefSalinity()); d.kv(q + "reftemp", t.getRefTemperature());
         }
     }
-    if (tm.hasTables("ROCKTAB")) {
-        // RocktabTable::m_isDirectional decides which column the Y/Z getters return (RKTRMDIR)
-        const auto& tc = tm.getRocktabTables();
-        for (const auto& [idx, ptr] : tc.tables()) {
-            if (!ptr) continue;
-            const auto& t = tc.getTable<Opm::RocktabTable>(idx);
-            const std::string q = "tm.rocktab.n" + std::to_string(idx) + ".";
-            SO_Q(q + "xcol", t.getTransmissibilityMultiplierXColumn().name());
-            SO_Q(q + "ycol", t.getTransmissibilityMultiplierYColumn().name());
-            SO_Q(q + "zcol", t.getTransmissibilityMultiplierZColumn().name());
-        }
-    }
+    // (ROCKTAB: the columns are covered by the generic sweep over getSimpleTables() above.  The copy
+    //  holds plain SimpleTable objects for ROCKTAB - TableManager::splitSimpleTable looks for the key
+    //  "ROCKMAP", not "ROCKTAB" - so RocktabTable::m_isDirectional cannot be queried on it without
+    //  reading past the object; no probe here.)
     if (tm.useJFunc()) {
         const auto& j = tm.getJFunc();
         SO_Q("tm.jfunc.flag", static_cast<int>(j.flag())); SO_Q("tm.jfunc.dir", static_cast<int>(j.direction()));
@@ -1548,7 +1540,7 @@ inline std::string genDeck(vh::Rng& r, std::map<std::string, long>& stats) {
     }
     if (r.coin(1, 5)) kw("MINPV") << " " << fmtD(1e-3 * (1 + r.below(9))) << " /\n";
     if (r.coin(1, 6)) kw("PINCH") << " " << fmtD(0.01 * (1 + r.below(20))) << " " << r.pick(SV{"GAP", "NOGAP"}) << " 1* " << r.pick(SV{"TOPBOT", "ALL"}) << " " << r.pick(SV{"TOP", "ALL"}) << " /\n";
-    if (r.coin(1, 5)) kw("JFUNC") << " " << r.pick(SV{"BOTH", "WATER", "GAS"}) << " " << fmtD(10 + r.below(40)) << " " << fmtD(10 + r.below(40)) << (r.coin() ? " 0.6 0.4 " + r.pick(SV{"XY", "X", "Z"}) : std::string("")) << " /\n";
+    if (endscale && r.coin(1, 2)) kw("JFUNC") << " " << r.pick(SV{"BOTH", "WATER", "GAS"}) << " " << fmtD(10 + r.below(40)) << " " << fmtD(10 + r.below(40)) << (r.coin() ? " 0.6 0.4 " + r.pick(SV{"XY", "X", "Z"}) : std::string("")) << " /\n";
     if (r.coin(1, 8)) kw("GDORIENT") << " INC INC INC DOWN RIGHT /\n";
     const bool editnnc = r.coin(1, 6);
     if (editnnc) { kw("EDIT"); kw("EDITNNC") << " 1 1 1 2 2 " << nz << " " << fmtD(0.5 + r.unit() * 3) << " /\n/\n"; }
@@ -1643,7 +1635,7 @@ inline std::string genDeck(vh::Rng& r, std::map<std::string, long>& stats) {
     auto rptrst = [&]() {
         kw("RPTRST");
         if (r.coin(1, 6)) { o << " " << r.range(0, 3) << " /\n"; return; }           // integer control
-        if (r.coin(4, 5)) o << " BASIC=" << r.range(0, 6);
+        if (r.coin(4, 5)) o << " BASIC=" << r.range(0, 5);
         if (r.coin(1, 3)) o << " FREQ=" << r.range(1, 4);
         for (int i = r.range(0, 3); i > 0; --i) { const auto& m = r.pick(rstMnemonics); o << " " << m; if (m == "FIP" && r.coin()) o << "=" << r.range(1, 3); }
         o << " /\n";
@@ -1681,7 +1673,14 @@ inline std::string genDeck(vh::Rng& r, std::map<std::string, long>& stats) {
         kw("VFPINJ") << " 2 " << fmtD(top) << " " << r.pick(SV{"WAT", "OIL", "GAS"}) << " THP " << (field ? "FIELD" : "METRIC") << " BHP /\n 1 100 " << fmtD(500 + r.below(500)) << " /\n 10 50 /\n 1 100 110 12" << r.range(0, 9) << " /\n 2 130 140 150 /\n";
     }
     std::set<std::string> parents;
-    if (ngroups > 1 && (network || r.coin(1, 3))) { kw("GRUPTREE"); for (size_t g = 1; g < groups.size(); ++g) { const auto& par = groups[r.below(g)]; parents.insert(par); o << " '" << groups[g] << "' '" << par << "' /\n"; } o << "/\n"; }
+    {   // every group is declared (GCONSALE, GCONSUMP, ... need the group to exist)
+        kw("GRUPTREE") << " 'G1' 'FIELD' /\n";
+        for (size_t g = 1; g < groups.size(); ++g) {
+            if (r.coin(1, 3)) { o << " '" << groups[g] << "' 'FIELD' /\n"; continue; }
+            const auto& par = groups[r.below(g)]; parents.insert(par); o << " '" << groups[g] << "' '" << par << "' /\n";
+        }
+        o << "/\n";
+    }
     SV leaves;
     for (const auto& g : groups) if (!parents.count(g)) leaves.push_back(g);
     std::vector<bool> producer(nwells);
@@ -1704,13 +1703,16 @@ inline std::string genDeck(vh::Rng& r, std::map<std::string, long>& stats) {
           << (r.coin(3, 4) ? "OPEN" : "SHUT") << "' " << (r.coin() ? "1*" : std::to_string(r.range(1, ntsfun))) << " " << (r.coin() ? "1*" : fmtD(1 + r.below(50))) << " " << fmtD(0.1 + 0.05 * r.below(6))
           << " " << (r.coin(3, 4) ? "1*" : fmtD(100 + r.below(1000))) << " " << (r.coin() ? "1*" : fmtD(r.range(-2, 5))) << (r.coin(1, 5) ? " " + fmtD(1e-5 * r.below(9)) + " " + r.pick(SV{"Z", "X", "Y"}) : std::string("")) << " /\n/\n";
     };
+    std::set<std::string> chokeGroups;     // NODEPROP auto-choke groups: their wells run on THP, GRUP is refused
+    std::set<int> noGrup;                  // WGRUPCON NO: not available for group control any more
     auto control = [&](int w) {
+        const bool choked = chokeGroups.count(groupOf[w]) > 0 || noGrup.count(w) > 0;
         if (producer[w]) {
             if (r.coin(1, 3)) kw("WCONHIST") << " '" << wells[w] << "' 'OPEN' '" << r.pick(SV{"ORAT", "LRAT", "RESV"}) << "' " << fmtD(r.below(5000)) << " " << fmtD(r.below(500)) << " " << fmtD(r.below(90000)) << (r.coin() ? " 3* " + fmtD(50 + r.below(100)) : "") << " /\n/\n";
-            else kw("WCONPROD") << " '" << wells[w] << "' '" << (r.coin(4, 5) ? "OPEN" : "SHUT") << "' '" << r.pick(SV{"ORAT", "LRAT", "BHP", "GRUP"}) << "' " << fmtD(100 + r.below(5000)) << " " << (r.coin() ? "1*" : fmtD(r.below(900))) << " 1* " << fmtD(200 + r.below(7000)) << " 1* " << fmtD(20 + r.below(100))
+            else kw("WCONPROD") << " '" << wells[w] << "' '" << (r.coin(4, 5) ? "OPEN" : "SHUT") << "' '" << (choked ? r.pick(SV{"ORAT", "LRAT", "BHP"}) : r.pick(SV{"ORAT", "LRAT", "BHP", "GRUP"})) << "' " << fmtD(100 + r.below(5000)) << " " << (r.coin() ? "1*" : fmtD(r.below(900))) << " 1* " << fmtD(200 + r.below(7000)) << " 1* " << fmtD(20 + r.below(100))
                                 << (vfp && r.coin() ? " " + fmtD(5 + r.below(20)) + " 1 " + fmtD(r.below(100)) : std::string("")) << " /\n/\n";
         } else {
-            kw("WCONINJE") << " '" << wells[w] << "' '" << r.pick(SV{"WATER", "GAS"}) << "' 'OPEN' '" << r.pick(SV{"RATE", "BHP", "GRUP"}) << "' " << fmtD(100 + r.below(9000)) << " 1* " << fmtD(300 + r.below(300))
+            kw("WCONINJE") << " '" << wells[w] << "' '" << r.pick(SV{"WATER", "GAS"}) << "' 'OPEN' '" << (choked ? r.pick(SV{"RATE", "BHP"}) : r.pick(SV{"RATE", "BHP", "GRUP"})) << "' " << fmtD(100 + r.below(9000)) << " 1* " << fmtD(300 + r.below(300))
                            << (vfp && r.coin() ? " " + fmtD(50 + r.below(100)) + " 2" : std::string("")) << " /\n/\n";
         }
     };
@@ -1722,7 +1724,7 @@ inline std::string genDeck(vh::Rng& r, std::map<std::string, long>& stats) {
         const auto [hi, hj] = head[w];
         kw("COMPDAT") << " 'MS1' " << hi << " " << hj << " 1 " << nz << " 'OPEN' 1* 1* 0.2 /\n/\n";
         const bool inc = r.coin();
-        kw("WELSEGS") << " 'MS1' " << fmtD(top) << " 0 " << (r.coin() ? "1e-5" : "1*") << " '" << (inc ? "INC" : "ABS") << "' '" << r.pick(SV{"HF-", "HFA", "H--"}) << "' 'HO' /\n";
+        kw("WELSEGS") << " 'MS1' " << fmtD(top) << " 0 " << (r.coin() ? "1e-5" : "1*") << " '" << (inc ? "INC" : "ABS") << "' '" << r.pick(SV{"HF-", "HFA"}) << "' 'HO' /\n";
         for (int k = 1; k <= nz; ++k) {
             const double l = inc ? dz : k * dz, dd = inc ? dz : top + k * dz;
             o << " " << k + 1 << " " << k + 1 << " 1 " << k << " " << fmtD(l) << " " << fmtD(dd) << " 0." << r.range(1, 3) << " 0.0001 /\n";
@@ -1751,7 +1753,6 @@ inline std::string genDeck(vh::Rng& r, std::map<std::string, long>& stats) {
     };
     if (msw) for (int i = r.range(0, 3); i > 0; --i) segDevice();
     // network: extended (BRANPROP/NODEPROP) or standard (GRUPNET)
-    std::set<std::string> chokeGroups;
     bool netDefined = false;
     auto allProducers = [&](const std::string& g) { bool any = false; for (int w = 0; w < nwells; ++w) if (groupOf[w] == g) { any = true; if (!producer[w]) return false; } return any; };
     auto defineNetwork = [&]() {
@@ -1868,12 +1869,16 @@ inline std::string genDeck(vh::Rng& r, std::map<std::string, long>& stats) {
             case 23: kw("GCONSUMP") << " '" << r.pick(groups) << "' " << fmtD(r.below(500)) << " " << (r.coin() ? "1*" : fmtD(r.below(500))) << (network && extnet && r.coin(1, 3) ? " '" + r.pick(groups) + "'" : std::string("")) << " /\n/\n"; break;
             case 24: case 25: kw("GUIDERAT") << " " << fmtD(r.below(30)) << " '" << r.pick(SV{"OIL", "LIQ", "GAS", "RES", "NONE"}) << "' " << fmtD(r.unit() * 2) << " " << fmtD(r.unit()) << " " << fmtD(r.unit()) << " " << fmtD(r.unit() * 2) << " " << fmtD(r.unit()) << " " << fmtD(r.unit())
                                               << " '" << r.pick(SV{"YES", "NO"}) << "' " << fmtD(0.1 + 0.9 * r.unit()) << " /\n"; break;
-            case 26: kw("WGRUPCON") << " " << wq << " '" << r.pick(SV{"YES", "NO"}) << "' " << (r.coin() ? "1*" : fmtD(r.unit() * 5)) << " '" << r.pick(SV{"OIL", "WAT", "GAS", "LIQ", "RES", "RAT"}) << "' " << fmtD(0.5 + r.unit()) << " /\n/\n"; break;
+            case 26: { const bool yes = r.coin(); if (yes) noGrup.erase(w); else noGrup.insert(w); }
+                     kw("WGRUPCON") << " " << wq << " '" << (noGrup.count(w) ? "NO" : "YES") << "' " << (r.coin() ? "1*" : fmtD(r.unit() * 5)) << " '" << r.pick(SV{"OIL", "WAT", "GAS", "LIQ", "RES", "RAT"}) << "' " << fmtD(0.5 + r.unit()) << " /\n/\n"; break;
             case 27: segDevice(); break;
             case 28: netbalan(); break;
             case 29: if (r.coin(1, 3)) defineNetwork(); else rptrst(); break;
             case 30: rptrst(); break;
-            case 31: if (bc) { kw("BCPROP") << " 1 " << r.pick(SV{"RATE GAS", "RATE WATER", "RATE OIL", "FREE", "DIRICHLET WATER", "THERMAL WATER", "NONE"}) << " " << fmtD(-0.1 * r.unit()) << (r.coin() ? " " + fmtD(200 + r.below(100)) + (r.coin() ? " " + fmtD(20 + r.below(60)) : std::string("")) : std::string("")) << " /\n";
+            case 31: if (bc) { const std::string ty = r.pick(SV{"RATE GAS", "RATE WATER", "RATE OIL", "FREE", "DIRICHLET WATER", "THERMAL WATER", "NONE"});
+                               kw("BCPROP") << " 1 " << ty;
+                               if (ty.find(' ') != std::string::npos) o << " " << fmtD(-0.1 * r.unit()) << (r.coin() ? " " + fmtD(200 + r.below(100)) + (r.coin() ? " " + fmtD(20 + r.below(60)) : std::string("")) : std::string(""));
+                               o << " /\n";
                                if (r.coin()) o << " 2 " << r.pick(SV{"FREE", "RATE WATER 0.01", "NONE * * * * FIXED 1 0 1 1.0 * 2.0 0.1"}) << " /\n"; o << "/\n"; } break;
             case 32: if (tracers) kw("WTRACER") << " " << wq << " '" << r.pick(SV{"SEA", "OT", "GT"}) << "' " << fmtD(r.unit()) << " /\n/\n"; break;
             case 33: if (!fluxAquifers.empty()) kw("AQUFLUX") << " 4 " << fmtD(r.unit() * 0.1) << (r.coin() ? " " + fmtD(r.unit()) + (r.coin() ? " " + fmtD(20 + r.below(50)) + " " + fmtD(200 + r.below(100)) : std::string("")) : std::string("")) << " /\n/\n"; else drsdt(); break;
